@@ -7,6 +7,7 @@ mod codec;
 mod handler;
 mod id;
 mod node;
+mod replay;
 mod rnd;
 mod sim;
 mod twin;
@@ -83,6 +84,12 @@ fn main() {
             };
             tw.flush();
             println!("{}", cov.json(&tw));
+            return;
+        }
+        "replay" => {
+            let (b, st) = replay::run(kv.get("scripts").expect("--scripts FILE"), &mut tw);
+            tw.flush();
+            println!("{{\"events\":{},\"panics\":{},\"cov_behaviours\":{},\"cov_steps\":{}}}", tw.events, tw.panics, b, st);
             return;
         }
         "cfgsweep" => {
